@@ -1,6 +1,7 @@
 import MosnVerif.Lemmas.PoolSpec
 import MosnVerif.Lemmas.StreamOnce
 import MosnVerif.Lemmas.PoolMuxSpec
+import MosnVerif.Lemmas.PoolH2Steps
 /-!
 # C09 — upstream connection pools: exclusive leases, no leaks, no dirty reuse (property theorems only)
 
@@ -336,15 +337,63 @@ theorem mux_reach_inv (maxConn maxReq : Nat) (ops : List PoolMux.Op) : PoolMux.I
   PoolMux.inv_run _ (PoolMux.inv_init maxConn maxReq) ops
 
 /-- **books** (multiplex): the shared requests breaker counts exactly the requests in flight plus the slots held
-elsewhere (nothing when its limit is 0); it never goes negative. -/
+elsewhere (nothing when its limit is 0); it never goes negative; both upstream request_active gauges (host, cluster)
+count exactly the requests in flight.  "In flight" = streams with a receiver that have not ended: a one-way request
+(`Op.newStreamOneway`) is never among them. -/
 theorem mux_books (maxConn maxReq : Nat) (ops : List PoolMux.Op) :
     let s := mreach maxConn maxReq ops
-    s.reqCur = (if s.maxReq = 0 then 0 else (s.ext : Int) + (s.liveCount : Int)) ∧ 0 ≤ s.reqCur := by
+    s.reqCur = (if s.maxReq = 0 then 0 else (s.ext : Int) + (s.liveCount : Int)) ∧ 0 ≤ s.reqCur ∧
+    s.actHost = (s.liveCount : Int) ∧ s.actCluster = (s.liveCount : Int) := by
   intro s
   have hinv : PoolMux.Inv s := mux_reach_inv maxConn maxReq ops
   have h := hinv.core.req
-  refine ⟨h, ?_⟩
+  refine ⟨h, ?_, hinv.core.act.1, hinv.core.act.2⟩
   rw [h]; split <;> omega
+
+/-- **a one-way request holds nothing**: in every reachable state, for every slot, `NewStream(ctx, nil)` — admitted or
+refused — leaves the requests breaker, both request_active gauges, the slots, the connections and the streams exactly as
+they were (the whole state): a one-way client stream is never destroyed or reset, so nothing could give a slot or a
+gauge unit back.  Consequently any number of one-way requests changes neither the books nor the answer of the breaker
+to the next request.  (Proved from the regenerated movements of the `receiver == nil` path of `NewStream`,
+`Gen.PoolMuxMoves.muxLeaseMoves true`: with the one-way branch merged into the ordinary one this stops checking.) -/
+theorem oneway_holds_nothing (maxConn maxReq : Nat) (ops : List PoolMux.Op) (k : Nat) :
+    let s := mreach maxConn maxReq ops
+    (PoolMux.step s (.newStreamOneway k)).1 = s ∧
+    (∀ n, PoolMux.run s (List.replicate n (.newStreamOneway k)) = s) ∧
+    (∀ c, (PoolMux.step s (.newStreamOneway k)).2 = .ok c →
+      c < s.nClients ∧ (s.client c).netOpen = true ∧ (s.client c).goaway = 0 ∧
+      Gen.Pool.canCreate s.maxReq s.reqCur = true) := by
+  intro s
+  have h : PoolMux.Inv s := mux_reach_inv maxConn maxReq ops
+  refine ⟨PoolMux.newStreamOneway_state s k, ?_, ?_⟩
+  · intro n
+    induction n with
+    | zero => rfl
+    | succ n ih =>
+      show PoolMux.run (PoolMux.step s (.newStreamOneway k)).1 _ = s
+      rw [show (PoolMux.step s (.newStreamOneway k)).1 = s from PoolMux.newStreamOneway_state s k]; exact ih
+  · intro c
+    show (PoolMux.newStreamOneway s k).2 = .ok c → _
+    unfold PoolMux.newStreamOneway
+    simp only
+    split
+    · intro hc; cases hc
+    split
+    · intro hc; cases hc
+    · intro hc; cases hc
+    · rename_i c0 hs
+      split
+      · intro hc; cases hc
+      · rename_i hu
+        split
+        · intro hc; cases hc
+        · rename_i hcan
+          intro hc
+          cases hc
+          have ⟨h1, _, h3⟩ := h.core.slotOk _ c hs
+          have hst : (s.client c).state = Gen.PoolMux.muxConnected := by
+            simp only [Gen.PoolMux.muxUnusable, decide_eq_true_eq, ne_eq, Decidable.not_not] at hu; exact hu
+          exact ⟨h1, h3 hst, (h.core.st c h1).mp hst, by simpa using hcan⟩
 
 /-- **no_leak** (multiplex): at every quiescent point every OPEN connection the pool ever made is either the
 Connected client of its slot (the pool will lease requests on it) or is draining after a go-away with at least one
@@ -436,11 +485,280 @@ example : ((PoolMux.trace (PoolMux.init 1 2) [.checkAndInit (some 0) .ok, .newSt
       .checkAndInit (some 0) .ok, .connClose 0 true, .newStream 0]).map (·.1)) =
     [.ready false, .ok 0, .ok 0, .none, .ready false, .none, .ok 1] := by decide
 example : (mreach 1 2 [.checkAndInit (some 0) .ok, .newStream 0, .newStream 0, .goAway 0, .connClose 0 true]).reqCur = 0 := by decide
+-- one-way requests: granted on the Connected client, and after any number of them the breaker (max_requests = 1) still
+-- admits an ordinary request; the gauges count that request only
+example : ((PoolMux.trace (PoolMux.init 1 1) [.checkAndInit (some 0) .ok, .newStreamOneway 0, .newStreamOneway 0, .newStreamOneway 0,
+      .newStream 0, .newStreamOneway 0]).map (fun x => (x.1, x.2.reqCur, x.2.actHost, x.2.actCluster))) =
+    [(.ready false, 0, 0, 0), (.ok 0, 0, 0, 0), (.ok 0, 0, 0, 0), (.ok 0, 0, 0, 0), (.ok 0, 1, 1, 1), (.overflow, 1, 1, 1)] := by decide
 -- a dial that is refused or times out leaves the slot empty; the next CheckAndInit connects
 example : ((PoolMux.trace (PoolMux.init 2 0) [.checkAndInit (some 1) .timeout, .newStream 1, .checkAndInit (some 1) .refused,
       .checkAndInit (some 1) .ok, .checkAndInit (some 1) .ok, .newStream 1]).map (·.1)) =
     [.ready false, .connFail, .ready false, .ready false, .ready true, .ok 0] := by decide
 
 end Mux
+
+
+/-! ## the HTTP/2 pool (`Model/PoolH2.lean`): one client per pool, replaced after GOAWAY
+
+Every operation list {NewStream (dial ok | refused | timed out), response, local reset, RST_STREAM, graceful GOAWAY on a
+given connection, close of a given connection by either side, Shutdown, Close, load on the shared requests breaker},
+every `max_requests`.  The tests and counter movements are the regenerated `Gen/PoolH2.lean`. -/
+section H2
+open MosnVerif.Model
+
+/-- the state after an arbitrary operation list against a fresh HTTP/2 pool -/
+def hreach (maxReq : Nat) (ops : List PoolH2.Op) : PoolH2.State := PoolH2.run (PoolH2.init maxReq) ops
+
+theorem h2_reach_inv (maxReq : Nat) (ops : List PoolH2.Op) : PoolH2.Inv (hreach maxReq ops) :=
+  PoolH2.inv_run _ (PoolH2.inv_init maxReq) ops
+
+/-- **books** (HTTP/2): at every quiescent point both upstream `connection_active` gauges equal the NUMBER of open
+connections the pool made that are its client or have not been told to go away (`counted`) — which is 1 when the pool
+holds a client and 0 otherwise; the pool's client is an open connection; every open connection that has not been told
+to go away IS the pool's client (none is forgotten, at most one exists); the requests breaker and both `request_active`
+gauges count the requests in flight.  (A connection that was told to go away leaves the gauge when `NewStream` replaces
+it, or when it closes while still the pool's client — once; it then drains uncounted until the upstream closes it.) -/
+theorem h2_books (maxReq : Nat) (ops : List PoolH2.Op) :
+    let s := hreach maxReq ops
+    s.connHost = (PoolH2.countP s.counted s.nConns : Int) ∧ s.connCluster = (PoolH2.countP s.counted s.nConns : Int) ∧
+    s.connHost = (if s.active.isSome then 1 else 0) ∧
+    (∀ c, s.active = some c → c < s.nConns ∧ (s.conn c).netOpen = true) ∧
+    (∀ c, c < s.nConns → (s.conn c).netOpen = true → (s.conn c).goaway = 0 → s.active = some c) ∧
+    s.reqCur = (if s.maxReq = 0 then 0 else (s.ext : Int) + (s.liveCount : Int)) ∧ 0 ≤ s.reqCur ∧
+    s.actHost = (s.liveCount : Int) ∧ s.actCluster = (s.liveCount : Int) := by
+  intro s
+  have h : PoolH2.Inv s := h2_reach_inv maxReq ops
+  have hc := PoolH2.countP_counted s h
+  refine ⟨by rw [hc]; exact h.gauge.1, by rw [hc]; exact h.gauge.2, h.gauge.1, h.activeOk, h.openOk, h.req, ?_, h.act.1, h.act.2⟩
+  rw [h.req]; split <;> omega
+
+/-- a request is served by an open connection that has not been told to go away, which is the pool's client afterwards;
+when such a connection exists BEFORE the call it is the one that serves (or the breaker refuses) and nothing is dialled;
+otherwise at most one connection is dialled; a refusal takes nothing from the request books. -/
+theorem h2_lease_sound (maxReq : Nat) (ops : List PoolH2.Op) (dial : Dial) :
+    let s := hreach maxReq ops
+    let r := PoolH2.newStream s dial
+    (∀ c, r.2 = .ok c → c < r.1.nConns ∧ (r.1.conn c).netOpen = true ∧ (r.1.conn c).goaway = 0 ∧ r.1.active = some c) ∧
+    (∀ c0, c0 < s.nConns → (s.conn c0).netOpen = true → (s.conn c0).goaway = 0 →
+      r.1.nConns = s.nConns ∧ (r.2 = .ok c0 ∨ r.2 = .overflow)) ∧
+    r.1.nConns ≤ s.nConns + 1 ∧
+    (r.2.isOk = false → r.1.reqCur = s.reqCur ∧ r.1.actHost = s.actHost ∧ r.1.actCluster = s.actCluster ∧
+      r.1.nStreams = s.nStreams) := by
+  intro s r
+  have h : PoolH2.Inv s := h2_reach_inv maxReq ops
+  have hp : PoolH2.Inv (PoolH2.pick s dial) := PoolH2.inv_pick s h dial
+  have hr : PoolH2.Inv r.1 := PoolH2.inv_newStream s h dial
+  obtain ⟨f1, f2, f3, f4, f5, f6⟩ := PoolH2.newStream_conn_fields s dial
+  have hres := PoolH2.newStream_result s dial
+  refine ⟨?_, ?_, ?_, ?_⟩
+  · intro c hc
+    have hact : (PoolH2.pick s dial).active = some c := by
+      rw [show r.2 = (PoolH2.newStream s dial).2 from rfl, hres] at hc
+      cases ha : (PoolH2.pick s dial).active with
+      | none => simp [ha] at hc
+      | some c' =>
+        simp only [ha] at hc
+        split at hc
+        · cases hc; rfl
+        · cases hc
+    have hra : r.1.active = some c := by rw [show r.1.active = _ from f2]; exact hact
+    have ⟨h1, h2⟩ := hr.activeOk c hra
+    refine ⟨h1, h2, ?_, hra⟩
+    -- the client picked has not been told to go away: a marked one was given up, a dialled one is fresh
+    have hconn : (r.1.conn c) = ((PoolH2.pick s dial).conn c) := by rw [show r.1.conn = _ from f5]
+    rw [hconn]
+    cases ha : s.active with
+    | none =>
+      rw [PoolH2.pick_none s h ha] at hact ⊢
+      cases hf : dial.fails
+      · simp only [hf, Bool.false_eq_true, if_false, PoolH2.dialled] at hact ⊢
+        cases hact; simp
+      · simp [hf, ha] at hact
+    | some a =>
+      by_cases hg : (s.conn a).goaway = 0
+      · rw [PoolH2.pick_keep s h a ha hg] at hact ⊢
+        rw [ha] at hact; cases hact; exact hg
+      · rw [PoolH2.pick_goaway s h a ha hg] at hact ⊢
+        cases hf : dial.fails
+        · simp only [hf, Bool.false_eq_true, if_false, PoolH2.dialled] at hact ⊢
+          cases hact; simp [PoolH2.dropped]
+        · simp [hf, PoolH2.dropped] at hact
+  · intro c0 hc0 ho hg
+    have ha := h.openOk c0 hc0 ho hg
+    have hk := PoolH2.pick_keep s h c0 ha hg dial
+    refine ⟨by rw [show r.1.nConns = _ from f1, hk], ?_⟩
+    rw [show r.2 = (PoolH2.newStream s dial).2 from rfl, hres, hk]
+    simp only [ha]
+    split
+    · left; rfl
+    · right; rfl
+  · rw [show r.1.nConns = _ from f1]
+    cases ha : s.active with
+    | none =>
+      rw [PoolH2.pick_none s h ha]; split <;> simp [PoolH2.dialled]
+    | some a =>
+      by_cases hg : (s.conn a).goaway = 0
+      · rw [PoolH2.pick_keep s h a ha hg]; omega
+      · rw [PoolH2.pick_goaway s h a ha hg]; split <;> simp [PoolH2.dialled, PoolH2.dropped]
+  · intro hno
+    have e := PoolH2.newStream_refused s dial hno
+    obtain ⟨g1, g2, g3, g4, _, _, _⟩ := PoolH2.pick_req_fields s h dial
+    rw [show r.1 = _ from e]
+    exact ⟨g1, g2, g3, g4⟩
+
+/-- **a GOAWAY is replaced once**: in every reachable state whose pool holds client `c`, after a graceful GOAWAY on `c`
+the next request dials exactly ONE replacement `n` (the upstream's next connection), which becomes the pool's client and
+serves the request (unless the breaker refuses it), both `connection_active` gauges are what they were (the old client
+was given back, the new one counted), and `c` is still open, draining.  When `c` closes LATER — by either side — the
+pool keeps `n`, the gauges do not move, `n` stays open; and the request after that is served without another dial. -/
+theorem h2_goaway_replaces_once (maxReq : Nat) (ops : List PoolH2.Op) (c : Nat) (remote : Bool) (d : Dial) :
+    let s := hreach maxReq ops
+    s.active = some c →
+    let s1 := (PoolH2.step s (.goAway c)).1
+    let r2 := PoolH2.step s1 (.newStream .ok)
+    let s3 := (PoolH2.step r2.1 (.connClose c remote)).1
+    let r4 := PoolH2.step s3 (.newStream d)
+    r2.1.nConns = s.nConns + 1 ∧ r2.1.active = some s.nConns ∧ (r2.2 = .ok s.nConns ∨ r2.2 = .overflow) ∧
+    r2.1.connHost = s.connHost ∧ r2.1.connCluster = s.connCluster ∧ (r2.1.conn c).netOpen = true ∧
+    s3.active = some s.nConns ∧ s3.connHost = s.connHost ∧ s3.connCluster = s.connCluster ∧
+    (s3.conn c).netOpen = false ∧ (s3.conn s.nConns).netOpen = true ∧
+    r4.1.nConns = s.nConns + 1 ∧ (r4.2 = .ok s.nConns ∨ r4.2 = .overflow) := by
+  intro s ha s1 r2 s3 r4
+  have h : PoolH2.Inv s := h2_reach_inv maxReq ops
+  have ⟨hc, ho⟩ := h.activeOk c ha
+  -- the go-away
+  have hs1 : s1 = s.updC c (fun cl => { cl with goaway := Gen.PoolH2.h2GoAwayMark }) := by
+    show (PoolH2.step s (.goAway c)).1 = _
+    simp [PoolH2.step, hc, ho]
+  have h1 : PoolH2.Inv s1 := by rw [hs1]; exact PoolH2.inv_goAway s h c
+  have ha1 : s1.active = some c := by rw [hs1]; exact ha
+  have hg1 : (s1.conn c).goaway ≠ 0 := by rw [hs1]; simp [PoolH2.State.updC, Gen.PoolH2.h2GoAwayMark]
+  -- the next request
+  have hpick := PoolH2.pick_goaway s1 h1 c ha1 hg1 .ok
+  simp only [Dial.fails, Bool.false_eq_true, if_false] at hpick
+  obtain ⟨f1, f2, f3, f4, f5, _⟩ := PoolH2.newStream_conn_fields s1 .ok
+  have hres := PoolH2.newStream_result s1 .ok
+  rw [hpick] at f1 f2 f3 f4 f5 hres
+  have hn1 : s1.nConns = s.nConns := by rw [hs1]; rfl
+  have e1 : r2.1.nConns = s.nConns + 1 := by rw [show r2.1.nConns = _ from f1]; simp [PoolH2.dialled, PoolH2.dropped, hn1]
+  have e2 : r2.1.active = some s.nConns := by rw [show r2.1.active = _ from f2]; simp [PoolH2.dialled, PoolH2.dropped, hn1]
+  have e3 : r2.2 = .ok s.nConns ∨ r2.2 = .overflow := by
+    rw [show r2.2 = (PoolH2.newStream s1 .ok).2 from rfl, hres]
+    simp only [PoolH2.dialled, PoolH2.dropped, hn1]
+    split
+    · left; rfl
+    · right; rfl
+  have e4 : r2.1.connHost = s.connHost := by
+    rw [show r2.1.connHost = _ from f3]; simp only [PoolH2.dialled, PoolH2.dropped, hs1, PoolH2.State.updC]; omega
+  have e5 : r2.1.connCluster = s.connCluster := by
+    rw [show r2.1.connCluster = _ from f4]; simp only [PoolH2.dialled, PoolH2.dropped, hs1, PoolH2.State.updC]; omega
+  have hne : c ≠ s.nConns := by omega
+  have hconn2 : ∀ k, r2.1.conn k = if k = s.nConns then {} else s1.conn k := by
+    intro k; rw [show r2.1.conn = _ from f5]; simp [PoolH2.dialled, PoolH2.dropped, hn1]
+  have e6 : (r2.1.conn c).netOpen = true := by
+    rw [hconn2, if_neg hne, hs1]; simp [PoolH2.State.updC, ho]
+  -- the late close of the replaced connection
+  have h2 : PoolH2.Inv r2.1 := PoolH2.inv_newStream s1 h1 .ok
+  have hs3 : s3 = PoolH2.closedSt r2.1 c PoolH2.connLost (decide (r2.1.active = some c)) := by
+    show (PoolH2.netClose r2.1 c PoolH2.connLost) = _
+    exact PoolH2.netClose_eq r2.1 c _ (by omega) e6
+  have hdec : decide (r2.1.active = some c) = false := by
+    rw [e2]; simp; omega
+  rw [hdec] at hs3
+  have e7 : s3.active = some s.nConns := by rw [hs3]; simp [PoolH2.closedSt, e2]
+  have e8 : s3.connHost = s.connHost := by rw [hs3]; simp [PoolH2.closedSt, e4]
+  have e9 : s3.connCluster = s.connCluster := by rw [hs3]; simp [PoolH2.closedSt, e5]
+  have e10 : (s3.conn c).netOpen = false := by rw [hs3]; simp [PoolH2.closedSt]
+  have hnew : s3.conn s.nConns = {} := by
+    rw [hs3]; simp only [PoolH2.closedSt]; rw [if_neg (fun e => hne e.symm), hconn2, if_pos rfl]
+  have e11 : (s3.conn s.nConns).netOpen = true := by rw [hnew]
+  -- the request after that
+  have h3 : PoolH2.Inv s3 := PoolH2.inv_netClose r2.1 h2 c _
+  have hk := PoolH2.pick_keep s3 h3 s.nConns e7 (by rw [hnew]) d
+  obtain ⟨k1, _, _, _, _, _⟩ := PoolH2.newStream_conn_fields s3 d
+  have hres4 := PoolH2.newStream_result s3 d
+  rw [hk] at k1 hres4
+  have hn3 : s3.nConns = s.nConns + 1 := by rw [hs3]; simp [PoolH2.closedSt, e1]
+  refine ⟨e1, e2, e3, e4, e5, e6, e7, e8, e9, e10, e11, by rw [show r4.1.nConns = _ from k1, hn3], ?_⟩
+  rw [show r4.2 = (PoolH2.newStream s3 d).2 from rfl, hres4]
+  simp only [e7]
+  split
+  · left; rfl
+  · right; rfl
+
+/-- **no_leak** (HTTP/2): every open connection the pool ever made is its client or has been told to go away by the
+upstream (which then owns its closing: the pool lets it drain); once every connection is closed the pool holds no
+client, both `connection_active` gauges and both `request_active` gauges are 0, no request is in flight and the requests
+breaker is back at what the other pools hold. -/
+theorem h2_no_leak (maxReq : Nat) (ops : List PoolH2.Op) :
+    let s := hreach maxReq ops
+    (∀ c, c < s.nConns → (s.conn c).netOpen = true → s.active = some c ∨ (s.conn c).goaway ≠ 0) ∧
+    ((∀ c, c < s.nConns → (s.conn c).netOpen = false) →
+      s.active = none ∧ s.connHost = 0 ∧ s.connCluster = 0 ∧ s.liveCount = 0 ∧ s.actHost = 0 ∧ s.actCluster = 0 ∧
+      s.reqCur = (if s.maxReq = 0 then 0 else (s.ext : Int))) := by
+  intro s
+  have h : PoolH2.Inv s := h2_reach_inv maxReq ops
+  refine ⟨?_, ?_⟩
+  · intro c hc ho
+    by_cases hg : (s.conn c).goaway = 0
+    · left; exact h.openOk c hc ho hg
+    · right; exact hg
+  · intro hall
+    have hact : s.active = none := by
+      cases ha : s.active with
+      | none => rfl
+      | some a =>
+        have ⟨h1, h2⟩ := h.activeOk a ha
+        rw [hall a h1] at h2; cases h2
+    have hlive : s.liveCount = 0 := by
+      apply PoolH2.countLive_zero
+      intro i hi
+      cases hl : (s.stream i).live
+      · rfl
+      · have ⟨h1, h2⟩ := h.liveOk i hi hl
+        rw [hall _ h1] at h2; cases h2
+    have hg := h.gauge
+    simp only [PoolH2.gaugeOf, hact, Option.isSome_none, Bool.false_eq_true, if_false] at hg
+    refine ⟨hact, hg.1, hg.2, hlive, by rw [h.act.1, hlive]; rfl, by rw [h.act.2, hlive]; rfl, ?_⟩
+    rw [h.req, hlive]; simp
+
+/-- the executable predicate evaluated on the implementation's observations holds of every model observation. -/
+theorem h2_spec_holds_on_model (maxReq : Nat) (ops : List PoolH2.Op) :
+    let s := hreach maxReq ops
+    PoolH2.obsSpec s.maxReq s.ext s.told (PoolH2.obsOf s) = true :=
+  PoolH2.obsSpec_holds _ (h2_reach_inv maxReq ops)
+
+/-- the executable `NewStream` predicate (which connection serves a request, how many connections are dialled, what a
+refusal takes) holds of every `NewStream` step of the model, in every reachable state, for every dial outcome. -/
+theorem h2_newstream_spec_holds_on_model (maxReq : Nat) (ops : List PoolH2.Op) (dial : Dial) :
+    let s := hreach maxReq ops
+    let r := PoolH2.newStream s dial
+    PoolH2.newStreamSpec s.maxReq s.ext s.told dial.fails (PoolH2.obsOf s) (PoolH2.resGranted r.2) r.2.render
+      (PoolH2.obsOf r.1) = true :=
+  PoolH2.newStreamSpec_holds _ (h2_reach_inv maxReq ops) dial
+
+/-! ### non-vacuity -/
+-- request, GOAWAY, request: one replacement is dialled and counted, the old connection drains uncounted
+example : ((PoolH2.trace (PoolH2.init 0) [.newStream .ok, .goAway 0, .newStream .ok, .newStream .ok]).map
+      (fun x => (x.1, x.2.active, x.2.connHost, x.2.connCluster, x.2.nConns))) =
+    [(.ok 0, some 0, 1, 1, 1), (.none, some 0, 1, 1, 1), (.ok 1, some 1, 1, 1, 2), (.ok 1, some 1, 1, 1, 2)] := by decide
+-- … the drained connection closes late: the replacement stays the pool's client, the gauges stay; then everything
+-- closes: all gauges are 0 (hypothesis of `h2_no_leak` met)
+example : ((PoolH2.trace (PoolH2.init 0) [.newStream .ok, .goAway 0, .newStream .ok, .connClose 0 true, .newStream .ok,
+      .connClose 1 true]).map (fun x => (x.1, x.2.active, x.2.connHost, x.2.actHost, x.2.nConns))) =
+    [(.ok 0, some 0, 1, 1, 1), (.none, some 0, 1, 1, 1), (.ok 1, some 1, 1, 2, 2), (.none, some 1, 1, 1, 2),
+     (.ok 1, some 1, 1, 2, 2), (.none, none, 0, 0, 2)] := by decide
+-- GOAWAY, then the connection closes before any further request: the gauge is given back by the close (before the
+-- repair of onConnectionEvent it stayed 1 with no connection left)
+example : ((fun (s : PoolH2.State) => (s.active, s.connHost, s.connCluster))
+    (hreach 0 [.newStream .ok, .response 0, .goAway 0, .connClose 0 true])) = (none, 0, 0) := by decide
+-- the hypotheses of `h2_goaway_replaces_once` are met
+example : (hreach 2 [.newStream .ok, .newStream .ok]).active = some 0 := by decide
+-- a refused dial / a full breaker take nothing; the breaker is asked after the dial (the connection stays the pool's)
+example : ((PoolH2.trace (PoolH2.init 1) [.newStream .refused, .extInc, .newStream .ok, .extDec, .newStream .ok]).map
+      (fun x => (x.1, x.2.active, x.2.connHost, x.2.reqCur))) =
+    [(.connFail, none, 0, 0), (.none, none, 0, 1), (.overflow, some 0, 1, 1), (.none, some 0, 1, 0), (.ok 0, some 0, 1, 1)] := by decide
+
+end H2
 
 end MosnVerif.Props.C09
